@@ -4,6 +4,7 @@ import (
 	"encoding/json"
 	"fmt"
 	"math/rand"
+	"time"
 )
 
 // DocGen generates documents in wire form.
@@ -42,6 +43,8 @@ func (g *DocGen) Scalar(r *rand.Rand) W {
 		return scalarWire(int64(r.Intn(5)))
 	case "uint64":
 		return scalarWire(uint64(1<<63) + uint64(r.Intn(3)))
+	case "time":
+		return scalarWire(time.Date(2001, 12, 14+r.Intn(3), 21, 59, 43, 0, time.UTC))
 	default:
 		pool := g.Strings
 		if pool == nil {
